@@ -22,7 +22,7 @@ ASSUMPTIONS = ['documented stencils: the first/last 2mm+2 points for the mm poin
                'value is the exact derivative of the polynomial',
                'bound C*(eps*size*sum_j|w_j fx_j| + measured sensitivity to node displacement eps*stencil width)']
 C_PT = 256.0
-KINDS = ['uniform', 'increasing', 'decreasing', 'geometric']
+KINDS = ['uniform', 'increasing', 'decreasing', 'geometric', 'jittered', 'tiny_unit', 'huge_unit']
 
 
 def setup(ctx, mon):
@@ -50,8 +50,17 @@ def make_grid(rng, kind, length):
         return np.linspace(rng.uniform(-2, 0), rng.uniform(0.5, 3), length)
     if kind == 'geometric':
         return 0.1 * rng.uniform(1.05, 1.3) ** np.arange(length)
+    if kind == 'jittered':
+        # almost uniform: spacing perturbed by a relative 1e-9 .. 1e-3 (a grid that "looks" uniform is not uniform)
+        d = 10.0 ** rng.uniform(-2, 0)
+        x = rng.uniform(-1, 1) + d * (np.arange(length) + 10.0 ** rng.uniform(-9, -3) * rng.uniform(-1, 1, length))
+        return x[::-1].copy() if rng.random() < 0.3 else x
     steps = rng.uniform(0.2, 1.0, length) * 10.0 ** rng.uniform(-2, 0)
     x = rng.uniform(-1, 1) + np.cumsum(steps)
+    if kind in ('tiny_unit', 'huge_unit'):
+        # the same kind of grid in other units (absolute tolerances have no business in the weights)
+        x = x * 10.0 ** (rng.uniform(-13, -5) if kind == 'tiny_unit' else rng.uniform(3, 8))
+        return x[::-1].copy() if rng.random() < 0.3 else x
     return x[::-1].copy() if kind == 'decreasing' else x
 
 
@@ -64,9 +73,15 @@ def run_case(case, ctx):
     coefs = [int(c) for c in rng.integers(-9, 10, deg + 1)]
     if coefs[-1] == 0:
         coefs[-1] = 1
-    shift = F(float(np.round(x.mean(), 2)))
     xs = [F(float(v)) for v in x]
-    fx_exact = [poly_eval(coefs, v - shift) for v in xs]
+    if case['kind'] in ('tiny_unit', 'huge_unit'):
+        # polynomial in the grid's own unit: q(x) = p((x - shift)/unit), q^(n)(x) = p^(n)(.)/unit^n
+        unit = F(float(2.0 ** math.floor(math.log2(float(np.max(np.abs(np.diff(x))))))))
+        shift = xs[len(xs) // 2]
+    else:
+        unit = F(1)
+        shift = F(float(np.round(x.mean(), 2)))
+    fx_exact = [poly_eval(coefs, (v - shift) / unit) for v in xs]
     fx = np.array([float(v) for v in fx_exact])
     dcoefs = poly_deriv(coefs, n)
     args = (list(fx), list(x)) if case['as_list'] else (fx.copy(), x.copy())
@@ -109,7 +124,7 @@ def run_case(case, ctx):
         scale = sum(abs(wj * fj) for wj, fj in zip(w, vals))
         sens = sum(abs((wj - wpj) * fj) for wj, wpj, fj in zip(w, wp, vals))
         bound = C_PT * (EPS * len(nodes) * to_float(scale) + to_float(sens))
-        ref = poly_eval(dcoefs, xs[i] - shift)
+        ref = poly_eval(dcoefs, (xs[i] - shift) / unit) / unit ** n
         o = float(out[i])
         ctx.count('points_asserted:' + where)
         if not math.isfinite(o):
